@@ -300,7 +300,7 @@ pub fn run(ctx: &RunCtx) -> i32 {
     let meta = CheckMeta {
         property: "C09",
         level: "exploration",
-        rule: "logical requests of the four body kinds - plain streamed PutObject, digest-signed PutObject, buffered XML (PutBucketTagging, DeleteObjects, CompleteMultipartUpload), aws-chunked, multipart/form-data POST - in valid and invalid instances (wrong digest, malformed / mis-declared XML, corrupted chunk signature, missing final chunk, bad form signature, truncated form); each run under every 2-frame split (small bodies) or token-adjacent and sampled splits, 3-frame splits around structural tokens (CRLF, boundary, ';chunk-signature=', hex size, signature, markup), 1-byte frames, random k-partitions, inserted empty frames x five Pending schedules (never, before every frame, before end-of-stream, deferred wake-up through the timer, random). The outcome tuple (status, error code, success body, backend method + input + delivered bytes + terminal state + credentials, hook events) must equal that of the single-frame never-pending run. A cell is (body kind, partition class, schedule class, outcome class).".into(),
+        rule: "logical requests of the four body kinds - plain streamed PutObject, digest-signed PutObject, buffered XML (PutBucketTagging, DeleteObjects, CompleteMultipartUpload), aws-chunked, multipart/form-data POST - in valid and invalid instances (wrong digest, malformed / mis-declared XML, corrupted chunk signature, missing final chunk, bad form signature, truncated form); each run under every 2-frame split (small bodies) or token-adjacent and sampled splits, 3-frame splits around structural tokens (CRLF, boundary, ';chunk-signature=', hex size, signature, markup), 1-byte frames, random k-partitions, inserted empty frames x five Pending schedules (never, before every frame, before end-of-stream, deferred wake-up through the timer, random). The outcome tuple (status, error code, success body, backend method + input + delivered bytes + terminal state + credentials, hook events) must equal that of the single-frame never-pending run. Overlap leg: 2..8 such requests (two signers and anonymous) in flight together on one service, interleaved with seeded yields at every hook / frame or in parallel on 4 threads; each must be given what it is given alone. Forms with 70 KiB..2 MiB of fields cut at and next to every power of two. A cell is (body kind, partition class, schedule class, outcome class).".into(),
         assumptions: vec!["the reference framing is one frame through the same boxed body type, never pending".into()],
         min_held: 3000,
         min_cells: 100,
